@@ -180,13 +180,21 @@ def parse_segments(text, version=None, encoding_chars=None, validation_level=Non
                         elif current_parent is not None and segment_name in [c.name for c in current_parent.children] \
                                 and current_parent.repetitions[segment_name][1] == 1:
                             # The number of instances allowed is reached so we create another instance of the same
-                            group = Group(current_parent.name, version=version, reference=current_parent.reference,
-                                          validation_level=validation_level)
-
-                            if current_parent.parent is None:
-                                segments.append(group)
-                            else:
-                                current_parent.parent.add(group)
+                            # group. If that group can't be repeated in the group that contains it, it is the containing
+                            # one that starts a new instance (and so on going up)
+                            to_repeat = [current_parent]
+                            while to_repeat[-1].parent is not None and \
+                                    to_repeat[-1].parent.repetitions.get(to_repeat[-1].name, (0, -1))[1] == 1:
+                                to_repeat.append(to_repeat[-1].parent)
+                            container = to_repeat[-1].parent
+                            for old_group in reversed(to_repeat):
+                                group = Group(old_group.name, version=version, reference=old_group.reference,
+                                              validation_level=validation_level)
+                                if container is None:
+                                    segments.append(group)
+                                else:
+                                    container.add(group)
+                                container = group
                             current_parent = group
 
                         segment = parse_segment(s.strip(), version, encoding_chars, validation_level, ref)
